@@ -248,6 +248,15 @@ def check_statement(text, params):
     if m:
         probs.append(('stmt_no_template_residue', 'placeholder',
                       'unexpanded template fragment %r in: %s' % (m.group(0), text[:160])))
+    m = re.search(r'\b(?:WHERE|where|AND|and|OR|or)\s+(?:RETURN|return|WITH|with|ORDER|order)\b|\b(?:WHERE|where)\s*$', outside)
+    if m:
+        probs.append(('stmt_balanced', 'dangling_clause', 'clause without content %r in: %s' % (m.group(0), text[:200])))
+    oq = list(outside)
+    for (a, b, q, content) in lits:         # keep the delimiters of literals so that a literal counts as a token
+        oq[a] = oq[b] = q
+    m = re.search(r',\s*[\}\)\]]', ''.join(oq))
+    if m:
+        probs.append(('stmt_balanced', 'trailing_comma', 'dangling comma %r in: %s' % (m.group(0), text[:200])))
     # parameters named in the text are supplied
     for name in sorted(set(re.findall(r'\$([A-Za-z_][A-Za-z0-9_]*)', outside))):
         if name not in params:
@@ -422,10 +431,12 @@ class W4World(World):
         elif kind == 'asm':
             s.update(call=rng.choice(['check_node_name', 'find_node_by_name']), node=v(), label=rng.choice(CLASSES), name=v())
         elif kind == 'cbm':
-            s.update(call=rng.choice(['get_matching_nodes_with_components', 'get_delegations', 'get_intersite_links',
+            s.update(call=rng.choice(['get_matching_nodes_with_components', 'get_matching_nodes_with_components',
+                                      'get_delegations', 'get_intersite_links',
                                       'get_sites', 'get_disconnected_sites', 'get_connected_sites', 'get_facility_ports']),
-                     node=v(), label='NetworkNode', props={rng.choice(['Site', 'Type', 'Name']): v()},
-                     ncomp=rng.randint(0, 2), model=v(False))
+                     node=v(), label='NetworkNode',
+                     props={rng.choice(['Site', 'Type', 'Name']): v() for _ in range(rng.choice([0, 1, 1, 2]))},
+                     ncomp=rng.randint(-1, 2), model=v(False))
         elif kind == 'lifecycle':
             s.update(call=rng.choice(['delete_graph', 'graph_exists', 'serialize_graph', 'validate_graph', 'clone_graph',
                                       'importer_delete_graph', 'cast_graph', 'delete_all_graphs']), gid2=v())
@@ -568,8 +579,8 @@ class W4World(World):
             from fim.slivers.attached_components import AttachedComponentsInfo, ComponentSliver, ComponentType
             comps = None
             if s['ncomp']:
-                comps = AttachedComponentsInfo()
-                for i in range(s['ncomp']):
+                comps = AttachedComponentsInfo()        # ncomp = -1: a container without devices
+                for i in range(max(0, s['ncomp'])):
                     c = ComponentSliver()
                     c.set_name('comp%d' % i)
                     c.set_type(ComponentType.GPU)
